@@ -287,27 +287,45 @@ func (w *World) extractHandlers(f *Facts) {
 				return
 			}
 			f.HandlerVar = g
-			k, ok := constInt(mu.Key)
-			if !ok || int(k) >= len(f.NTNames) {
-				f.err = append(f.err, "handler registration with non-constant key at "+w.pos(mu.Pos()))
-				return
+			register := func(key, val ssa.Value, pos token.Pos) {
+				k, ok := constInt(key)
+				if !ok || int(k) >= len(f.NTNames) {
+					f.err = append(f.err, "handler registration with non-constant key at "+w.pos(pos))
+					return
+				}
+				var hf *ssa.Function
+				switch v := stripConv(val).(type) {
+				case *ssa.Function:
+					hf = v
+				case *ssa.MakeClosure:
+					hf, _ = v.Fn.(*ssa.Function)
+				}
+				if hf == nil {
+					f.err = append(f.err, "handler registration with non-function value at "+w.pos(pos))
+					return
+				}
+				nt := f.NTNames[k]
+				if old, dup := f.Handlers[nt]; dup && old.Fn != hf {
+					f.HandlerDup = append(f.HandlerDup, nt)
+				}
+				f.Handlers[nt] = &Handler{NT: nt, Fn: hf, Pos: pos}
 			}
-			var hf *ssa.Function
-			switch v := stripConv(mu.Value).(type) {
-			case *ssa.Function:
-				hf = v
-			case *ssa.MakeClosure:
-				hf, _ = v.Fn.(*ssa.Function)
+			// `for nt, fn := range table { handlers[nt] = fn }`: the entries of the table that is ranged over
+			if kx, ok := mu.Key.(*ssa.Extract); ok {
+				if nx, ok := kx.Tuple.(*ssa.Next); ok {
+					if rg, ok := nx.Iter.(*ssa.Range); ok {
+						if vx, ok := mu.Value.(*ssa.Extract); ok && vx.Tuple == kx.Tuple && kx.Index == 1 && vx.Index == 2 {
+							if ents, ok := w.mapLiteralEntries(rg.X, 0); ok {
+								for _, e := range ents {
+									register(e.Key, e.Val, e.Pos)
+								}
+								return
+							}
+						}
+					}
+				}
 			}
-			if hf == nil {
-				f.err = append(f.err, "handler registration with non-function value at "+w.pos(mu.Pos()))
-				return
-			}
-			nt := f.NTNames[k]
-			if old, dup := f.Handlers[nt]; dup && old.Fn != hf {
-				f.HandlerDup = append(f.HandlerDup, nt)
-			}
-			f.Handlers[nt] = &Handler{NT: nt, Fn: hf, Pos: mu.Pos()}
+			register(mu.Key, mu.Value, mu.Pos())
 		})
 	}
 }
@@ -463,4 +481,52 @@ func (w *World) structStringPair(v ssa.Value) (string, string, bool) {
 		return "", "", true
 	}
 	return "", "", false
+}
+
+// mapLiteralEntries: the key/value pairs of a map value that is a composite literal: made in the same function, returned
+// by a function of the repository whose only result is such a literal, or held in a package-level variable
+// initialised with one.
+func (w *World) mapLiteralEntries(v ssa.Value, depth int) ([]mapEntry, bool) {
+	if depth > 3 {
+		return nil, false
+	}
+	switch x := stripConv(v).(type) {
+	case *ssa.MakeMap:
+		var out []mapEntry
+		ok := true
+		for _, rr := range referrers(x) {
+			switch y := rr.(type) {
+			case *ssa.MapUpdate:
+				if y.Map == ssa.Value(x) {
+					out = append(out, mapEntry{y.Key, y.Value, y.Pos()})
+				}
+			case *ssa.Return, *ssa.Range, *ssa.Store, *ssa.DebugRef:
+			default:
+				ok = false
+			}
+		}
+		return out, ok && len(out) > 0
+	case *ssa.Call:
+		sc := staticCallee(x)
+		if sc == nil || !inRepo(sc) || len(x.Call.Args) != 0 {
+			return nil, false
+		}
+		var ret ssa.Value
+		n := 0
+		allInstrs(sc, func(in ssa.Instruction) {
+			if r, ok := in.(*ssa.Return); ok && len(r.Results) == 1 {
+				ret = r.Results[0]
+				n++
+			}
+		})
+		if n != 1 {
+			return nil, false
+		}
+		return w.mapLiteralEntries(ret, depth+1)
+	case *ssa.UnOp:
+		if g, ok := x.X.(*ssa.Global); ok {
+			return w.globalMapLiteral(g)
+		}
+	}
+	return nil, false
 }
